@@ -14,6 +14,9 @@
 //!            (agenda group 0 = "MAIN" given explicitly, g = "G<g>"; activation group a = "A<a>")
 //!            cond = E.f.v | L.f.v | G.f.v   (f == v, f < v, f > v)
 //!            acts = `-` | act/act/…   act = S.f.v (f := v) | A.f.k (f := f + k) | F.g (ActivateAgendaGroup)
+//!                   | W.k  a workflow bookkeeping action: k = 0 ScheduleRule (one hour ahead), 1 CompleteWorkflow,
+//!                     2 SetWorkflowData — none of them touches the facts, the agenda or the loop control of `execute`
+//!                     (scheduled tasks only run through `execute_scheduled_tasks`), so the model sees a rule without it
 //!   ops   := `-` | op;op;…
 //!            X<t> execute_at_time(t) | C execute_with_callback (t = now = abstract time 50)
 //!            F<g> set_agenda_focus | P pop_agenda_focus | Z clear_agenda_focus | N reset_no_loop_tracking
@@ -134,6 +137,13 @@ pub fn parse_rule(s: &str) -> Option<RuleSpec> {
             match (k, q.len()) {
                 ('S', 3) | ('A', 3) => acts.push((k, q[1].parse().ok()?, q[2].parse().ok()?)),
                 ('F', 2) => acts.push((k, q[1].parse().ok()?, 0)),
+                ('W', 2) => {
+                    let w: u64 = q[1].parse().ok()?;
+                    if w > 2 {
+                        return None;
+                    }
+                    acts.push((k, w, 0))
+                }
                 _ => return None,
             }
         }
@@ -161,7 +171,7 @@ pub fn show_rule(r: &RuleSpec) -> String {
     } else {
         r.acts
             .iter()
-            .map(|(k, a, b)| if *k == 'F' { format!("F.{}", a) } else { format!("{}.{}.{}", k, a, b) })
+            .map(|(k, a, b)| if *k == 'F' || *k == 'W' { format!("{}.{}", k, a) } else { format!("{}.{}.{}", k, a, b) })
             .collect::<Vec<_>>()
             .join("/")
     };
@@ -304,6 +314,10 @@ fn marker(kind: i64, v: u64) -> ActionType {
     ActionType::Custom { action_type: "tr".into(), params }
 }
 
+pub fn workflow_only(r: &RuleSpec) -> bool {
+    !r.acts.is_empty() && r.acts.iter().all(|x| x.0 == 'W')
+}
+
 fn build_rule(r: &RuleSpec) -> Rule {
     let op = match r.cond.0 {
         'E' => Operator::Equal,
@@ -319,13 +333,26 @@ fn build_rule(r: &RuleSpec) -> Rule {
                 let e = if *b >= 0 { format!("f{} + {}", a, b) } else { format!("f{} - {}", a, -b) };
                 actions.push(ActionType::Set { field: format!("f{}", a), value: Value::Expression(e) })
             }
+            'W' => actions.push(match a {
+                0 => ActionType::ScheduleRule { rule_name: "later".into(), delay_ms: 3_600_000 },
+                1 => ActionType::CompleteWorkflow { workflow_name: "wf".into() },
+                _ => ActionType::SetWorkflowData { key: "k".into(), value: Value::Integer(*b) },
+            }),
             _ => {
                 actions.push(ActionType::ActivateAgendaGroup { group: group_name(*a) });
                 actions.push(marker(1, *a));
             }
         }
     }
-    actions.push(marker(0, r.name));
+    // the firing marker is a Custom action. A rule whose case actions are all workflow actions is built WITHOUT it, so that
+    // its action list really consists of workflow actions only; its firing marker is a trailing
+    // `ScheduleRule { "r<name>", 0 ms }`: the workflow engine's task list is a log in push order, read back (and drained) with
+    // `get_ready_tasks` after every execute and merged with the Custom-marker log by the instants both carry
+    if workflow_only(r) {
+        actions.push(ActionType::ScheduleRule { rule_name: format!("r{}", r.name), delay_ms: 0 });
+    } else {
+        actions.push(marker(0, r.name));
+    }
     let mut rule = Rule::new(format!("r{}", r.name), cond, actions)
         .with_salience(r.sal as i32)
         .with_no_loop(r.flags & 2 != 0)
@@ -356,7 +383,7 @@ pub fn exec_case(case: &str) -> String {
     }
     let cfg = EngineConfig { max_cycles: c.maxc, timeout: None, enable_stats: false, debug_mode: false };
     let mut eng = RustRuleEngine::with_config(kb, cfg);
-    let log: Arc<Mutex<Vec<(i64, i64)>>> = Arc::new(Mutex::new(Vec::new()));
+    let log: Arc<Mutex<Vec<(i64, i64, std::time::Instant)>>> = Arc::new(Mutex::new(Vec::new()));
     let l2 = log.clone();
     eng.register_action_handler("tr", move |p, _| {
         let k = match p.get("k") {
@@ -367,7 +394,7 @@ pub fn exec_case(case: &str) -> String {
             Some(Value::Integer(i)) => *i,
             _ => -1,
         };
-        l2.lock().unwrap().push((k, v));
+        l2.lock().unwrap().push((k, v, std::time::Instant::now()));
         Ok(())
     });
     let facts = Facts::new();
@@ -397,7 +424,15 @@ pub fn exec_case(case: &str) -> String {
                 } else {
                     eng.execute_with_callback(&facts, |name, _| cb.push(name.to_string()))
                 };
-                let evs = log.lock().unwrap().clone();
+                // Custom-marker log + the firing markers of workflow-only rules (ready tasks, in push order), merged by
+                // their instants (monotonic clock; the sort is stable, so equal instants keep marker-before-task order)
+                let mut stamped = log.lock().unwrap().clone();
+                for task in eng.get_ready_tasks() {
+                    let n = task.rule_name.strip_prefix('r').and_then(|x| x.parse::<i64>().ok()).unwrap_or(-1);
+                    stamped.push((0, n, task.execute_at));
+                }
+                stamped.sort_by_key(|e| e.2);
+                let evs: Vec<(i64, i64)> = stamped.iter().map(|e| (e.0, e.1)).collect();
                 let mut res = match &r {
                     Ok(g) => format!("ok,{},{},{}", g.cycle_count, g.rules_evaluated, g.rules_fired),
                     Err(_) => "err".to_string(),
